@@ -28,6 +28,14 @@ theorem bind_need_panic' {α : Type} (r : Bytes) (n : Nat) (f : Unit → Res α)
   · simp at h; exact Or.inl h.symm
   · simp at h; exact Or.inr h
 
+/-- a checked read never panics: a panic of the whole comes from what follows -/
+theorem bind_needLen_panic {α : Type} (typ : String) (r : Bytes) (n : Nat) (f : Unit → Res α) (m : String)
+    (h : (needLen typ r n >>= f) = .panic m) : f () = .panic m := by
+  unfold needLen at h
+  split at h
+  · simp at h
+  · simpa using h
+
 theorem decodeFuncFixed_okp (r : Bytes) (c : Bool) : OkPanics (decodeFuncFixed r c) := by
   unfold decodeFuncFixed
   apply okp_need
@@ -101,10 +109,8 @@ theorem runXls_panic (ctx : Ctx) (fuel : Nat) : ∀ (rgce : Bytes) (st : St), In
 theorem parseFormulaXls_panic (ctx : Ctx) (rgce : Bytes) (m : String) (h : parseFormulaXls ctx rgce = .panic m) :
     XlsPanic m := by
   unfold parseFormulaXls at h
-  rcases bind_need_panic' _ _ _ _ h with h1 | h1
-  · exact Or.inl h1
-  rcases bind_need_panic' _ _ _ _ h1 with h2 | h2
-  · exact Or.inl h2
+  have h1 := bind_needLen_panic _ _ _ _ _ h
+  have h2 := bind_needLen_panic _ _ _ _ _ h1
   dsimp only at h2
   have hr := runXls_panic ctx ((rgce.drop 2).take (u16 rgce 0)).length ((rgce.drop 2).take (u16 rgce 0)) ⟨[], []⟩ inv_init
   cases hrun : runXls ctx ((rgce.drop 2).take (u16 rgce 0)).length ((rgce.drop 2).take (u16 rgce 0)) ⟨[], []⟩ with
